@@ -184,6 +184,20 @@ CHECKS = {
              'list length concrete (1..3). XR-MERGE-JOIN / PD-TO-XARRAY: bounded only.',
         technique='AST-generated verification conditions over the real source at Skolem positions (uninterpreted values), z3; bounded native byte-for-byte comparison',
         design_ref='Part III C05'),
+    'C19': dict(
+        category='proof',
+        text='make_poly_collection / make_patch_collection / make_quiver / polygons_to_collection / animate_on_figure (real bodies) '
+             'against the contracts of polygons, mask (one cached array) and face_centres, with matplotlib / cartopy as recording '
+             'stand-ins: patch k is the outline of cell sel(k) and value k is the value of that very cell, where sel enumerates the '
+             'cells with geometry in increasing linear order (the same selection object on both sides); default clim = '
+             '(nanmin, nanmax) of exactly the plotted array; caller array / clim / transform passed through untouched; '
+             'data_array together with array, leftover dimensions and mismatched vector dimensions are refused; quiver arrow n '
+             'sits at face centre n with the components of cell n; every animation frame t sets the values at time t of the '
+             'cells whose outlines were drawn. 5 convention configurations incl. transposed grid dimensions, all extents.',
+        note=TRUST + 'Assumed: MPL-POLYCOLLECTION / MPL-QUIVER pair their arguments by position; contracts of polygons / mask / face_centres '
+             '(C02/C06); SELECTION-THEORY; NP-NANMINMAX-SKOLEM. Real artists are inspected by the bounded native stand-in.',
+        technique='AST-generated verification conditions over the real source against callee contracts and recording stand-ins for matplotlib, z3; bounded native inspection of real artists',
+        design_ref='Part III C19'),
 }
 
 NOT_YET = 'check not built yet (work in progress, see DESIGN.md)'
